@@ -26,7 +26,7 @@ func nl(xs []int) string {
 func TestVerifProbe(t *testing.T) {
 	var out strings.Builder
 	out.WriteString("From Coq Require Import List. Require Import Balance BalanceRun.\nImport ListNotations.\nDefinition cases : list bcase := [\n")
-	ncases := 1500
+	ncases := 6000
 	logger := logrus.New()
 	logger.SetOutput(os.Stderr)
 	logger.SetLevel(logrus.ErrorLevel)
@@ -44,11 +44,11 @@ func TestVerifProbe(t *testing.T) {
 		sharedDev := fmt.Sprintf("shared%d", seed)
 		for i := 0; i < nsrv; i++ {
 			srv := &KeepService{KeepService: arvados.KeepService{UUID: fmt.Sprintf("zzzzz-bi6l4-%015x", i), ReadOnly: rnd.Intn(6) == 0}, ChangeSet: &ChangeSet{}}
-			nm := 1 + rnd.Intn(2)
+			nm := 1 + rnd.Intn(3)
 			usedShared := false
 			for j := 0; j < nm; j++ {
 				dev := fmt.Sprintf("dev-%d-%d", i, j)
-				if rnd.Intn(4) == 0 && !usedShared {
+				if rnd.Intn(3) == 0 && !usedShared {
 					dev = sharedDev
 					usedShared = true
 				} else if nm == 1 && rnd.Intn(4) == 0 {
@@ -64,7 +64,7 @@ func TestVerifProbe(t *testing.T) {
 				case 3:
 					sc = map[string]bool{"default": true}
 				}
-				m := &KeepMount{KeepMount: arvados.KeepMount{UUID: fmt.Sprintf("zzzzz-mount-%07d%08d", i, j), DeviceID: dev, ReadOnly: rnd.Intn(5) == 0, Replication: 1 + rnd.Intn(2), StorageClasses: sc}, KeepService: srv}
+				m := &KeepMount{KeepMount: arvados.KeepMount{UUID: fmt.Sprintf("zzzzz-mount-%07d%08d", i, j), DeviceID: dev, ReadOnly: rnd.Intn(8) == 0, Replication: 1 + rnd.Intn(2), StorageClasses: sc}, KeepService: srv}
 				srv.mounts = append(srv.mounts, m)
 			}
 			srvs = append(srvs, srv)
